@@ -24,6 +24,7 @@ LEVEL_TEXT += ' Added clause: the runtime the shipped bootstrap runs on scopes c
 TECHNIQUE += "; who-may-read: the grammar actions read nothing of the running parser's configuration"
 LEVEL_TEXT += ' Added clause: the model a text compiles to does not depend on which of the three parsers read it.'
 TECHNIQUE += '; unset and empty namechars are the same to both inputs (= C09.R2c)'
+TECHNIQUE += '; the generator emits for every node class the run-time primitive the model uses (C15.R10 = C02.R2)'
 LEVEL_NOTE = ('Trusted: the three front-ends of the checker (EBNF reader written from docs/syntax.rst, decompiler of the emitted '
               'with-block idiom, reader of the repr-as-source) and the canonicaliser, whose rewrites subsume Model.optimized().')
 EXPLANATION = ('Static translation validation on /repo sources; TatSu is not imported, no grammar is compiled. programs = rule '
